@@ -144,17 +144,19 @@ class Program:
             return (mn, _reg(m2.group(1)), _reg(m2.group(2)), ('imm', _eval(off) if off is not None else 0), s)
         if mn in ('bl', 'b'):
             return (mn, rest, s)
+        if re.match(r'^b(eq|ne|cs|hs|cc|lo|mi|pl|vs|vc|hi|ls|ge|lt|gt|le)$', mn):
+            return ('bcond', mn[1:], rest, s)
         if mn == 'bx':
             return ('bx', _reg(rest), s)
         ops = [x.strip() for x in rest.split(',')]
-        if mn in ('add', 'adc', 'sub', 'sbc', 'eor', 'and', 'orr', 'mul', 'lsl', 'lsr'):
+        if mn in ('add', 'adc', 'sub', 'sbc', 'eor', 'and', 'orr', 'mul', 'lsl', 'lsr', 'asr', 'ror', 'bic'):
             if len(ops) == 2:
                 ops = [ops[0], ops[0], ops[1]]
             if len(ops) != 3:
                 raise Unsupported(s)
             last = ('imm', _eval(ops[2][1:])) if ops[2].startswith('#') else ('reg', _reg(ops[2]))
             return (mn, _reg(ops[0]), _reg(ops[1]), last, s)
-        if mn in ('mov', 'neg', 'uxth', 'mvn', 'cmp'):
+        if mn in ('mov', 'neg', 'uxth', 'mvn', 'cmp', 'cmn', 'tst', 'uxtb', 'sxth', 'sxtb', 'rev'):
             if len(ops) != 2:
                 raise Unsupported(s)
             src = ('imm', _eval(ops[1][1:])) if ops[1].startswith('#') else ('reg', _reg(ops[1]))
@@ -253,10 +255,10 @@ class Machine:
                     elif op == 'sbc':
                         raise Unsupported('sbc with high register')
                 r[d] = res
-            elif op in ('eor', 'and', 'orr'):
+            elif op in ('eor', 'and', 'orr', 'bic'):
                 d, n, last = ins[1], ins[2], ins[3]
                 b = last[1] if last[0] == 'imm' else r[last[1]]
-                res = {'eor': r[n] ^ b, 'and': r[n] & b, 'orr': r[n] | b}[op] & M32
+                res = {'eor': r[n] ^ b, 'and': r[n] & b, 'orr': r[n] | b, 'bic': r[n] & ~b}[op] & M32
                 r[d] = res
                 setnz(res)
             elif op == 'mul':
@@ -264,12 +266,20 @@ class Machine:
                 res = (r[n] * r[last[1]]) & M32
                 r[d] = res
                 setnz(res)
-            elif op in ('lsl', 'lsr'):
+            elif op in ('lsl', 'lsr', 'asr', 'ror'):
                 d, n, last = ins[1], ins[2], ins[3]
                 sh = last[1] if last[0] == 'imm' else (r[last[1]] & 0xff)
                 v = r[n]
                 if sh == 0:
                     res = v
+                elif op == 'asr':
+                    sv = v - (1 << 32) if v >> 31 else v
+                    res = (sv >> min(sh, 31)) & M32 if sh < 32 else (M32 if v >> 31 else 0)
+                    C = (sv >> (min(sh, 32) - 1)) & 1
+                elif op == 'ror':
+                    k = sh % 32
+                    res = ((v >> k) | (v << (32 - k))) & M32 if k else v
+                    C = res >> 31
                 elif op == 'lsl':
                     res = (v << sh) & M32 if sh < 32 else 0
                     C = (v >> (32 - sh)) & 1 if sh <= 32 else 0
@@ -309,6 +319,39 @@ class Machine:
             elif op == 'uxth':
                 d, src = ins[1], ins[2]
                 r[d] = r[src[1]] & 0xffff
+            elif op == 'uxtb':
+                r[ins[1]] = r[ins[2][1]] & 0xff
+            elif op == 'sxth':
+                v = r[ins[2][1]] & 0xffff
+                r[ins[1]] = (v - 0x10000 if v & 0x8000 else v) & M32
+            elif op == 'sxtb':
+                v = r[ins[2][1]] & 0xff
+                r[ins[1]] = (v - 0x100 if v & 0x80 else v) & M32
+            elif op == 'rev':
+                r[ins[1]] = int.from_bytes((r[ins[2][1]] & M32).to_bytes(4, 'little'), 'big')
+            elif op == 'tst':
+                b = ins[2][1] if ins[2][0] == 'imm' else r[ins[2][1]]
+                setnz(r[ins[1]] & b)
+            elif op == 'cmn':
+                a = r[ins[1]]
+                b = ins[2][1] if ins[2][0] == 'imm' else r[ins[2][1]]
+                s2 = a + b
+                res = s2 & M32
+                C = 1 if s2 > M32 else 0
+                V = 1 if (~(a ^ b) & (a ^ res)) >> 31 & 1 else 0
+                setnz(res)
+            elif op == 'b':
+                if ins[1] not in prog.labels:
+                    raise Unsupported('branch to unknown label ' + ins[1])
+                npc = prog.labels[ins[1]]
+            elif op == 'bcond':
+                cc = ins[1]
+                take = {'eq': Z == 1, 'ne': Z == 0, 'cs': C == 1, 'hs': C == 1, 'cc': C == 0, 'lo': C == 0, 'mi': N == 1, 'pl': N == 0, 'vs': V == 1, 'vc': V == 0,
+                        'hi': C == 1 and Z == 0, 'ls': C == 0 or Z == 1, 'ge': N == V, 'lt': N != V, 'gt': Z == 0 and N == V, 'le': Z == 1 or N != V}[cc]
+                if take:
+                    if ins[2] not in prog.labels:
+                        raise Unsupported('branch to unknown label ' + ins[2])
+                    npc = prog.labels[ins[2]]
             elif op == 'cmp':
                 a = r[ins[1]]
                 b = ins[2][1] if ins[2][0] == 'imm' else r[ins[2][1]]
@@ -414,6 +457,25 @@ t_sub:
     sbc r2, r2, r2
     neg r0, r2
     bx lr
+t_max:
+    cmp r0, r1
+    bhs t_max_done
+    mov r0, r1
+t_max_done:
+    bx lr
+t_sgn:
+    asr r0, r0, #31
+    bic r1, r1, r0
+    add r0, r0, r1
+    bx lr
+t_loop:
+    mov r2, #0
+t_loop_top:
+    add r2, r2, r0
+    sub r1, r1, #1
+    bne t_loop_top
+    mov r0, r2
+    bx lr
 t_mul:
     mul r0, r0, r1
     lsr r1, r0, #16
@@ -440,6 +502,9 @@ t_mul:
     assert r0 == 1                      # borrow: sbc r2,r2,r2 = -1, neg -> 1
     r0, _, _ = m.call(p, 't_sub', [2, 1, 0])
     assert r0 == 0
+    assert m.call(p, 't_max', [5, 9])[0] == 9 and m.call(p, 't_max', [9, 5])[0] == 9 and m.call(p, 't_max', [0x80000000, 1])[0] == 0x80000000      # unsigned compare
+    assert m.call(p, 't_sgn', [0x80000000, 0xff])[0] == M32 and m.call(p, 't_sgn', [5, 0xff])[0] == 0xff            # asr fills with the sign, bic clears
+    assert m.call(p, 't_loop', [7, 6])[0] == 42                                                                     # backward conditional branch
     r0, _, _ = m.call(p, 't_mul', [0x12345, 0x10])
     v = (0x12345 * 0x10) & M32
     assert r0 == (((v & 0xffff) << 4) + (v >> 16)) & M32
